@@ -19,6 +19,9 @@ OPT_NOTE = ("optimiser model (coq/model/Optimiser.v) replayed bit-for-bit agains
             "MCOptimiser::optimise_state on scripted and real states")
 
 PROPS = {
+    "C04": dict(props_file="props/C04.v", needs_gen=True,
+                engines=[("geom", dict(quick=[("C04", 4000)], thorough=[("C04", 200000)])), ("tables", dict(groups=True))],
+                design="DESIGN.md section 4 C04"),
     "C14": dict(props_file="props/C14.v", engines=[("geom", dict(quick=[("C14", 4000)], thorough=[("C14", 200000)]))],
                 design="DESIGN.md section 4 C14"),
     "C15": dict(props_file="props/C15.v", engines=[("geom", dict(quick=[("C15", 4000)], thorough=[("C15", 200000)]))],
